@@ -750,6 +750,13 @@ def construct(ex, n, st, ct):
             if isinstance(v, Opaque):
                 return v
         return Opaque('string')
+    if k == 'map':
+        for a in args:
+            try:
+                ex.ev(a, st)
+            except ExtractionError:
+                pass
+        return Opaque('map')        # unit-scale tables are not read by any unit under contract except through literal keys
     if '__normal_iterator' in ct.name or 'iterator' in ct.name.split('<')[0]:
         if len(args) == 1:
             return ex.ev(args[0], st)
@@ -786,11 +793,44 @@ def construct(ex, n, st, ct):
             st.arr[(region, lf)] = z3.K(z3.IntSort(), real(comp) if lct.kind == 'float' else comp.t)
             st.leafct[(region, lf)] = lct
         return ObjRef(region, ct.name)
+    if k == 'vector' and len(args) == 3 and 'allocator' in args[2].get('type', {}).get('qualType', '') and 'iterator' in (args[0].get('type', {}).get('qualType', '')):
+        # vector(first, last): copy of the iterator range
+        first, last = ex.ev(args[0], st), ex.ev(args[1], st)
+        if not (isinstance(first, PtrV) and isinstance(last, PtrV) and first.region == last.region and first.region is not None):
+            raise ExtractionError(f'{ex.unit}: vector(first,last) over something that is not one container (line {ex.curline})')
+        cnt = last.off - first.off
+        ex.safe(st, 'iterator-range', z3.And(first.off >= 0, cnt >= 0, last.off <= st.len_of(first.region)), 'iterator range inside its container')
+        region = f'local:{ex.pending_name or "vec"}'
+        st.length[region] = cnt
+        for key in list(st.arr):
+            if key[0] == region:
+                del st.arr[key]
+        kk = z3.Int('k!vcopy')
+        for lf, lct in container_leaves(ct.name):
+            a = st.array(first.region, lf, lct)
+            st.arr[(region, lf)] = z3.Lambda([kk], z3.Select(a, kk + first.off))
+            st.leafct[(region, lf)] = lct
+        return ObjRef(region, ct.name)
     if k == 'vector' and len(args) == 2 and parse_type(args[0].get('type')).kind == 'int':
         # vector(n): n value-initialised elements
         nval = ex.ev(args[0], st)
         region = f'local:{ex.pending_name or "vec"}'
         st.length[region] = nval.t
+        st.arr[(region, '')] = z3.K(z3.IntSort(), z3.RealVal(0))
+        st.leafct[(region, '')] = FLOAT
+        return ObjRef(region, ct.name)
+    if k == 'marray' and args and 'extent_gen' in (args[0].get('type', {}).get('qualType', '') + args[0].get('type', {}).get('desugaredQualType', '')):
+        # boost::multi_array(boost::extents[a][b][c]): value-initialised elements, extents as written
+        dims = extent_dims(ex, st, args[0])
+        region = f'local:{ex.pending_name or "marray"}'
+        total = dims[0]
+        for d_ in dims[1:]:
+            total = total * d_
+        st.length[region] = total
+        st.dims[region] = dims
+        for key in list(st.arr):
+            if key[0] == region:
+                del st.arr[key]
         st.arr[(region, '')] = z3.K(z3.IntSort(), z3.RealVal(0))
         st.leafct[(region, '')] = FLOAT
         return ObjRef(region, ct.name)
@@ -808,7 +848,38 @@ def construct(ex, n, st, ct):
     raise ExtractionError(f'{ex.unit}: construction of {ct.name} with {len(args)} args not modelled (line {ex.curline})')
 
 
+def extent_dims(ex, st, n):
+    """[a, b, c] of boost::extents[a][b][c]"""
+    while n.get('kind') in ('ImplicitCastExpr', 'MaterializeTemporaryExpr', 'ExprWithCleanups', 'CXXBindTemporaryExpr', 'ParenExpr', 'CXXConstructExpr') and n.get('inner'):
+        if n['kind'] == 'CXXConstructExpr' and len(n['inner']) != 1:
+            break
+        n = n['inner'][0]
+    if n.get('kind') == 'DeclRefExpr':
+        if (n.get('referencedDecl') or {}).get('name') != 'extents':
+            raise ExtractionError(f'{ex.unit}: multi_array extents built from {n.get("referencedDecl", {}).get("name")}')
+        return []
+    if n.get('kind') == 'CXXOperatorCallExpr' and len(n.get('inner', [])) == 3:
+        base = extent_dims(ex, st, n['inner'][1])
+        v = ex.ev(n['inner'][2], st)
+        return base + [v.t]
+    raise ExtractionError(f'{ex.unit}: multi_array extents expression of kind {n.get("kind")} not modelled (line {ex.curline})')
+
+
 def new_object(ex, n, st):
+    """new T(args): a fresh heap object built by T's constructor contract (when the unit binds one)"""
+    ce = n['inner'][-1] if n.get('inner') else None
+    while ce is not None and ce.get('kind') in ('ExprWithCleanups', 'CXXBindTemporaryExpr', 'MaterializeTemporaryExpr'):
+        ce = ce['inner'][0]
+    if ce is not None and ce.get('kind') == 'CXXConstructExpr' and ex.calls:
+        ct = parse_type(ce['type'])
+        cn = strip_quals(ct.name)
+        args = ce.get('inner', [])
+        use = ex.calls.get(f'ctor:{cn}/{len(args)}') or ex.calls.get(f'ctor:{cn}')
+        if use is not None:
+            ex.heapcount = getattr(ex, 'heapcount', 0) + 1
+            hname = f'heap:{cn.split("::")[-1].split("<")[0]}{ex.heapcount}'
+            r = use(ex, ce, st, None, args, this_override=hname)
+            return r if isinstance(r, ObjRef) else ObjRef(hname, ct.name, null=z3.BoolVal(False))
     raise ExtractionError(f'{ex.unit}: scalar new not modelled (line {ex.curline})')
 
 
